@@ -104,12 +104,15 @@ def install_coop_locks():
     import threading as _threading
     lock_types = (type(_threading.Lock()), type(_threading.RLock()))
     n = 0
+    memo = {}       # one lock object that is reachable under several names stays one lock
 
     def fix(holder, getter, setter):
         nonlocal n
         for name, val in list(getter(holder)):
             if isinstance(val, lock_types):
-                setter(holder, name, CoopLock(isinstance(val, lock_types[1])))
+                if id(val) not in memo:
+                    memo[id(val)] = (val, CoopLock(isinstance(val, lock_types[1])))
+                setter(holder, name, memo[id(val)][1])
                 n += 1
     for mname, mod in list(_sys.modules.items()):
         if not (mname == "utype" or mname.startswith("utype.")) or mod is None:
